@@ -1,6 +1,7 @@
 package main
 
 import (
+	"math/big"
 	"fmt"
 	"go/token"
 	"go/types"
@@ -11,7 +12,68 @@ import (
 )
 
 func (in *Interp) fpConst(f float64) *Term {
+	if in.cfg != nil && in.cfg.FPReal {
+		return in.realConst(new(big.Rat).SetFloat64(f))
+	}
 	return in.tb.mk(&Term{Op: OConst, S: SFP, C: math.Float64bits(f)})
+}
+
+// ---- real-number abstraction of float64 (sound over-approximation): every IEEE operation
+// returns a fresh real r with |r - exact| <= |exact| * 2^-53; conversions to integers are
+// floor / round of that real. Only `unsat` answers are meaningful in this mode.
+func (in *Interp) realConst(r *big.Rat) *Term {
+	txt := "(/ " + r.Num().String() + ".0 " + r.Denom().String() + ".0)"
+	if r.Sign() < 0 {
+		txt = "(- (/ " + new(big.Int).Neg(r.Num()).String() + ".0 " + r.Denom().String() + ".0))"
+	}
+	return in.tb.FP(txt, SReal)
+}
+
+func (in *Interp) realRounded(exact *Term) *Term {
+	tb := in.tb
+	r := in.freshSym("fp", SReal)
+	u := in.tb.FP("(/ 1.0 9007199254740992.0)", SReal)
+	zero := in.tb.FP("0.0", SReal)
+	abs := tb.Ite(tb.FP("<", SBool, exact, zero), tb.FP("-", SReal, exact), exact)
+	slack := tb.FP("*", SReal, u, abs)
+	in.addPC(tb.FP("<=", SBool, tb.FP("-", SReal, exact, slack), r))
+	in.addPC(tb.FP("<=", SBool, r, tb.FP("+", SReal, exact, slack)))
+	return r
+}
+
+func (in *Interp) realOfInt(x *Term, signed bool) *Term {
+	if x.S.K != KInt {
+		n := in.tb.BV2Nat(x)
+		if signed {
+			n = in.fromBV64(in.tb.Sext(x, 64), true)
+		}
+		x = n
+	}
+	return in.tb.FP("to_real", SReal, x)
+}
+
+// realToInt: truncation toward zero (trunc=true) or round-half-away (trunc=false) of a non-negative or
+// negative real into a fresh integer.
+func (in *Interp) realToInt(r *Term, trunc bool) *Term {
+	tb := in.tb
+	k := in.freshSym("fpint", SInt)
+	kr := tb.FP("to_real", SReal, k)
+	one := tb.FP("1.0", SReal)
+	zero := tb.FP("0.0", SReal)
+	half := tb.FP("0.5", SReal)
+	nonneg := tb.FP("<=", SBool, zero, r)
+	var pos, neg *Term
+	if trunc {
+		pos = tb.And(tb.FP("<=", SBool, kr, r), tb.FP("<", SBool, r, tb.FP("+", SReal, kr, one)))
+		neg = tb.And(tb.FP("<", SBool, tb.FP("-", SReal, kr, one), r), tb.FP("<=", SBool, r, kr))
+	} else {
+		rp := tb.FP("+", SReal, r, half)
+		rm := tb.FP("-", SReal, r, half)
+		pos = tb.And(tb.FP("<=", SBool, kr, rp), tb.FP("<", SBool, rp, tb.FP("+", SReal, kr, one)))
+		neg = tb.And(tb.FP("<", SBool, tb.FP("-", SReal, kr, one), rm), tb.FP("<=", SBool, rm, kr))
+	}
+	in.addPC(tb.Ite(nonneg, pos, neg))
+	return k
 }
 
 func (in *Interp) unop(fr *frame, instr *ssa.UnOp, x Value) Value {
@@ -23,6 +85,9 @@ func (in *Interp) unop(fr *frame, instr *ssa.UnOp, x Value) Value {
 		return tb.Not(x.(*Term))
 	case token.SUB:
 		t := x.(*Term)
+		if t.S.K == KReal {
+			return tb.FP("-", SReal, t)
+		}
 		if t.S.K == KFP {
 			if t.IsConst() {
 				return in.fpConst(-math.Float64frombits(t.C))
@@ -96,6 +161,9 @@ func (in *Interp) equals(fr *frame, t types.Type, x, y Value) *Term {
 	switch x := x.(type) {
 	case *Term:
 		yt := y.(*Term)
+		if x.S.K == KReal {
+			return tb.FP("=", SBool, x, yt)
+		}
 		if x.S.K == KFP {
 			if x.IsConst() && yt.IsConst() {
 				return tb.Bool(math.Float64frombits(x.C) == math.Float64frombits(yt.C))
@@ -224,7 +292,7 @@ func (in *Interp) binop(fr *frame, op token.Token, t types.Type, x, y Value, yt 
 	if !ok1 || !ok2 {
 		panic(engineAbort{fmt.Sprintf("binop %v on %T,%T", op, x, y)})
 	}
-	if a.S.K == KFP {
+	if a.S.K == KFP || a.S.K == KReal {
 		return in.fpBin(op, a, b)
 	}
 	if a.S.K == KBool {
@@ -326,6 +394,27 @@ func (in *Interp) binop(fr *frame, op token.Token, t types.Type, x, y Value, yt 
 
 func (in *Interp) fpBin(op token.Token, a, b *Term) Value {
 	tb := in.tb
+	if a.S.K == KReal {
+		switch op {
+		case token.ADD:
+			return in.realRounded(tb.FP("+", SReal, a, b))
+		case token.SUB:
+			return in.realRounded(tb.FP("-", SReal, a, b))
+		case token.MUL:
+			return in.realRounded(tb.FP("*", SReal, a, b))
+		case token.QUO:
+			return in.realRounded(tb.FP("/", SReal, a, b))
+		case token.LSS:
+			return tb.FP("<", SBool, a, b)
+		case token.LEQ:
+			return tb.FP("<=", SBool, a, b)
+		case token.GTR:
+			return tb.FP("<", SBool, b, a)
+		case token.GEQ:
+			return tb.FP("<=", SBool, b, a)
+		}
+		panic(engineAbort{"real-abstraction: unsupported float operator"})
+	}
 	if a.IsConst() && b.IsConst() {
 		x, y := math.Float64frombits(a.C), math.Float64frombits(b.C)
 		switch op {
@@ -459,6 +548,14 @@ func (in *Interp) conv(fr *frame, dst, src types.Type, x Value) Value {
 			case ds.K == KFP && ss.K == KFP:
 				return xt
 			case ds.K == KFP && ss.K == KBV:
+				if in.cfg.FPReal {
+					// exact below 2^53, rounded above
+					ex := in.realOfInt(xt, ssigned)
+					if iv, ok := in.ivalOf(xt); ok && iv.hi.Cmp(pow2(53)) <= 0 && iv.lo.Cmp(new(big.Int).Neg(pow2(53))) >= 0 {
+						return ex
+					}
+					return in.realRounded(ex)
+				}
 				if xt.S.K == KInt {
 					xt = in.toBV64(xt)
 				}
@@ -474,6 +571,21 @@ func (in *Interp) conv(fr *frame, dst, src types.Type, x Value) Value {
 				return tb.FP("(_ to_fp_unsigned 11 53) RNE", SFP, xt)
 			case ds.K == KBV && ss.K == KFP:
 				_, dsigned, _ := basicSort(db)
+				if xt.S.K == KReal {
+					k := in.realToInt(xt, true)
+					tr := typeRange(dst)
+					if ds.W < 64 {
+						panic(engineAbort{"real-abstraction: float to narrow integer"})
+					}
+					// out-of-range conversions are implementation-defined in Go: assume in range (recorded)
+					in.cuts["float->integer conversions assumed in range of the target type (real abstraction)"] = true
+					in.addPC(tb.And(tb.IBin(OILe, tb.IntConst(tr.lo), k), tb.IBin(OILe, k, tb.IntConst(tr.hi))))
+					in.setIval(k, tr)
+					if in.intMode {
+						return k
+					}
+					return tb.Int2BV(k, 64)
+				}
 				if xt.IsConst() {
 					f := math.Float64frombits(xt.C)
 					if dsigned {
